@@ -24,6 +24,7 @@ import gen_checks as GC
 import c08
 import gen_clear2
 import gen_rename
+import gen_embed
 from common import coq_string, coq_list
 
 PID = 'C18'
@@ -219,7 +220,7 @@ def ren_kind(kind, m):
 
 def run(ctx):
     out = common.Outcome()
-    out.proof = common.proof_status_many([(FAMILY, PROPFILE)] + gen_clear2.PROOFS + gen_rename.PROOFS)
+    out.proof = common.proof_status_many([(FAMILY, PROPFILE)] + gen_clear2.PROOFS + gen_rename.PROOFS + gen_embed.PROOFS)
     n_ren = ctx.scale(30, 350)
     n_emb = ctx.scale(12, 120)
     cases, metas, seen = [], [], set()
@@ -358,7 +359,36 @@ def run(ctx):
     # renamed model output with the implementation's output on the renamed program
     gen_rename.extra(ctx, out)
     gen_rename.finding_probes(out)      # recorded finding D18d (a code containing the word EXOGENOUS)
+    # second and third sentences for ALL sets of economies (coq/GenEmbed: Main2_embedding, Main2_embedding_sat under the
+    # decidable embed_ok; Main2_tax_zone_isolation, Main2_dividend_country_isolation): the theorem's `joint` is compared with
+    # the joint program the harness builds, embed_ok is evaluated, and components and joint run through the whole-program
+    # correspondence
+    gen_embed.extra(ctx, out)
+    out.failures.extend(market_code_probe())
     return out
+
+
+def market_code_probe():
+    """Recorded finding D18e (found while proving Main2_embedding): in a model with several countries a market whose code
+    is '<country code>_<code of its supplier>' shares the name SUP_<code> between its own supply variable and the
+    allocation variable of that supplier."""
+    def eco(cid, cc, cur):
+        secs = [('HH', 'Household', {'alpha_income': 0.6, 'alpha_fin': 0.4}), ('BUS', 'FixedMarginBusiness', {'profit_margin': 0.0}),
+                ('LAB', 'Market', {}), ('GOOD', 'Market', {})]
+        st = [{'kind': 'country', 'id': cid, 'code': cc, 'currency': cur, 'region': False}]
+        return st + [{'kind': 'sector', 'id': cid + '_' + c, 'cls': cls, 'country': cid, 'code': c, 'kw': dict(kw)} for c, cls, kw in secs]
+    prog = {'maxtime': 4, 'steps': eco('c1', 'CA', 'CAD') + eco('c2', 'US', 'USD'), 'shape': 'multizone'}
+    cm = {'GOOD': 'CA_BUS'}
+    try:
+        case, p2, m, skip = rename_case(prog, cm)
+        why = solve_pair_oracle(prog, p2, m, skip)
+    except Exception as e:  # noqa
+        why = 'renamed program fails: %r' % (e,)
+    if why:
+        return [{'key': 'rename:market-code-is-prefixed-supplier-code',
+                 'what': 'renaming the goods market GOOD to CA_BUS (country CA, supplier BUS) changes the result: %s' % (why,),
+                 'replay': {'kind': 'rename', 'prog': prog, 'codes': cm}}]
+    return []
 
 
 def replay(path):
@@ -368,6 +398,8 @@ def replay(path):
         return gen_clear2.replay(obj)
     if r.get('kind') == 'rename_model':
         return gen_rename.replay(obj)
+    if r.get('kind') == 'embed_model':
+        return gen_embed.replay(obj)
     if r.get('kind') == 'rename':
         try:
             case, p2, m, skip = rename_case(r['prog'], r['codes'])
